@@ -85,60 +85,7 @@ class C01(Check):
             cr.rect_claims(eng, t, g, w, rh, newlines=rh - 1)
             eng.claim("does not end with a newline", not cr.ends_with_newline(out))
             return
-        img = self.img
-        common, kitty, iterm2 = self.mods["common"], self.mods["kitty"], self.mods["iterm2"]
-        rh = shape["r_height"]
-        rw = eng.int("r_width", 1, 1 << 16)
-        img._size = (rw, rh)
-        ow, oh = eng.int("ori_w", 1, 1 << 16), eng.int("ori_h", 1, 1 << 16)
-        img._original_size = (ow, oh)
-        cs = tuple(shape["cell"])
-        common.get_cell_size = lambda: cs
-        mix = eng.bool("mix")
-        level = eng.int("compress", 0, 9)
-        mode = shape["mode"]
-        src = cr.FakeImg(eng, mode, (ow, oh), "source", filename="/img.png")
-        max_raw = 3 * 1024 * shape.get("chunks", 3)
-
-        def get_render_data(self_, im, alpha, *, size=None, pixel_data=True, round_alpha=False, frame=False):
-            w, h = size
-            eng.assume(w * h * len(mode) <= max_raw)
-            return (cr.FakeImg(eng, mode, (w, h), "render"), None, None)
-
-        self.cls._get_render_data = get_render_data
-        if style == "kitty":
-            kitty.standard_b64encode = cr.b64_stub(eng)
-            kitty.compress = cr.compress_stub(eng, max_raw)
-            z = eng.int("z_index", -(2**31) + 1, 2**31 - 1)
-            blend = eng.bool("blend")
-            out = img._render_image(src, None, method=shape["method"], z_index=z, mix=mix, compress=level, blend=blend)
-        else:
-            iterm2.standard_b64encode = cr.b64_stub(eng)
-            type(img)._TERM = "" if shape["term"] == "iterm2" else shape["term"]
-            readable = eng.bool("file_is_readable")
-            animated = eng.bool("is_animated") if shape["method"] != "anim" else True
-            img._is_animated = bool(animated)
-            img._source_type = common.ImageSource.PIL_IMAGE if bool(eng.bool("from_pil")) else common.ImageSource.FILE_PATH
-            img._source = src if img._source_type is common.ImageSource.PIL_IMAGE else "/img.png"
-            flen = eng.int("file_len", 1, 1 << 24)
-
-            def fake_open(path, mode_="rb"):
-                from sx import tstr
-
-                if eng.concrete is not None:
-                    import io
-
-                    return io.BytesIO(b"F" * int(flen))
-                return tstr.SxIO(cr.opq("file", flen, ("file", path)), True)
-
-            iterm2.open = fake_open
-            iterm2.os = cr.namespace(access=lambda p, m: bool(readable), R_OK=4)
-            iterm2.PIL = cr.namespace(Image=cr.namespace(frombytes=lambda m, size, data: cr.FakeImg(eng, m, size, "strip")))
-            import warnings
-
-            with warnings.catch_warnings():
-                warnings.simplefilter("ignore")
-                out = img._render_image(src, None, method=shape["method"], mix=mix, compress=level)
+        out, rw, rh, ctx = cr.graphics_render(self, eng, shape)
         eng.reachable()
         t, g = cr.screen(eng, rw, rh)
         t.feed(out).finish()
